@@ -1,7 +1,7 @@
 (* Property C12 -- segment iteration agrees with the '/'-split of the text.  Statements only. *)
 From Coq Require Import List NArith Bool Arith.
 Import ListNotations.
-Require Import V.Regex V.Parse V.ParseProofs V.PathSpec V.Splice V.Setters V.Iter V.IterProofs V.IterAll V.PathQ V.C12Proofs.
+Require Import V.Regex V.Parse V.ParseProofs V.PathSpec V.Splice V.Setters V.Iter V.IterProofs V.IterAll V.PathQ V.C12Proofs V.NormProofs V.PopProofs V.ParentProofs.
 Local Open Scope nat_scope.
 
 (* A non-empty path is pfx ++ join l with pfx = "" or "/" and l its non-empty list of '/'-free
@@ -30,6 +30,26 @@ Print Assumptions C12_interleave_at.
 Theorem C12_segments_are_the_split : forall p, none_of [QM; HASH] p -> map (slice p) (pq_segments p) = segs p.
 Proof. exact segments_are_the_split. Qed.
 Print Assumptions C12_segments_are_the_split.
+
+(* derived queries.  last(): the last segment of the '/'-split (none for "" and "/"), never a panic *)
+Theorem C12_last : forall v, none_of [QM; HASH] v ->
+  match pq_last v with
+  | Some (Some r) => last_opt (segs v) = Some (slice v r)
+  | Some None => segs v = []
+  | None => False
+  end.
+Proof. exact pq_last_spec. Qed.
+Print Assumptions C12_last.
+
+(* parent(): the path without its last segment, with the same absoluteness: None for "", "/" and a lone relative
+   segment, "/" for "/x", the library's "/./" for "//x" (whose remaining segment is empty), and the text up to the last
+   '/' otherwise; parent_or_empty() replaces None by "" or "/" *)
+Theorem C12_parent : forall v, none_of [QM; HASH] v -> option_map (pslice_text v) (pq_parent v) = parent_text v.
+Proof. exact pq_parent_spec. Qed.
+Print Assumptions C12_parent.
+Theorem C12_parent_or_empty : forall v, none_of [QM; HASH] v -> pq_parent_or_empty_text v = Some (parent_or_empty_text1 v).
+Proof. exact parent_or_empty_spec. Qed.
+Print Assumptions C12_parent_or_empty.
 
 (* joining the '/'-split reproduces the path (PathSpec) *)
 Theorem C12_join_split : forall p : str, join (split p) = p.
